@@ -165,12 +165,16 @@ func (s *sess) startRepl() {
 	st.loc1, st.loc2 = &localsink.LocalSink{}, &localsink.LocalSink{}
 	st.loc1.Initialize(mapConf{"directory": st.loc1Dir}, "")
 	st.loc2.Initialize(mapConf{"directory": st.loc2Dir}, "")
-	srcConf := mapConf{"grpcAddress": "source:18888", "directory": st.watch}
+	srcConf := mapConf{"grpcAddress": filerGrpcAddr, "directory": st.watch}
 	st.repl1 = replication.NewReplicator(srcConf, "", st.rec1)
 	st.rec1k = &recSink{name: "filer", dir: st.target, tree: map[string]recEntry{}, targetSig: st.targetSig, keyOnly: true}
 	st.repl1k = replication.NewReplicator(srcConf, "", st.rec1k)
 	st.repl1l = replication.NewReplicator(srcConf, "", st.loc1)
 	st.fn2 = command.VerifGenProcessFunction(st.watch, st.target, st.rec2, false)
+	// as runFilerBackup does: the sink learns where the chunk data comes from
+	src2 := &source.FilerSource{}
+	src2.DoInitialize("", filerGrpcAddr, st.watch, false)
+	st.loc2.SetSourceFiler(src2)
 	st.fn2l = command.VerifGenProcessFunction(st.watch, st.loc2Dir, st.loc2, false)
 	notification.Queue = recQueue{st}
 	s.repl = st
@@ -257,6 +261,9 @@ func (s *sess) replCatchUp() {
 		for _, rep := range []*replication.Replicator{rp.repl1, rp.repl1k, rp.repl1l} {
 			if err := rep.Replicate(ctx, q.key, proto.Clone(q.msg).(*filer_pb.EventNotification)); err != nil {
 				r.Log("note: Replicate(%s) returned %s", q.key, strings.ReplaceAll(err.Error(), r.Dir, "$RUN"))
+				if rep == rp.repl1l && s.copyFailed("Replicator -> local sink", err) {
+					return
+				}
 			}
 		}
 		n1++
@@ -269,6 +276,9 @@ func (s *sess) replCatchUp() {
 			}
 			if err := fn(ev); err != nil {
 				r.Log("note: process function returned %s for event in %s", strings.ReplaceAll(err.Error(), r.Dir, "$RUN"), ev.Directory)
+				if off == &rp.off2l && s.copyFailed("subscription(backup) -> process function -> local sink", err) {
+					return n
+				}
 			}
 			*off = ev.TsNs
 			known := false
@@ -286,6 +296,7 @@ func (s *sess) replCatchUp() {
 	}
 	n2 := feed(s.subscribe(rp.off2, rp.targetSig), rp.fn2, &rp.off2, &rp.seen2)
 	n2l := feed(s.subscribe(rp.off2l, 0), rp.fn2l, &rp.off2l, &rp.seen2l)
+	s.flushServed()
 	r.Log("replicated: %d queue messages, %d + %d subscribed events", n1, n2, n2l)
 	if n1+n2+n2l > 0 {
 		r.NonTrivial()
@@ -380,13 +391,15 @@ func (s *sess) checkSinks() {
 			return cmp("Replicator -> recording sink (update = replace at key)", tree(rp.rec1k), s.projection(rp.target, false), rp.target)
 		},
 		func() bool {
-			return cmp("Replicator -> local sink", localFiles(rp.loc1Dir), s.projection(rp.loc1Dir, true), rp.loc1Dir)
+			return cmp("Replicator -> local sink", localFiles(rp.loc1Dir), s.projection(rp.loc1Dir, true), rp.loc1Dir) &&
+				s.checkSinkContent("Replicator -> local sink", rp.loc1Dir)
 		},
 		func() bool {
 			return cmp("subscription(sync) -> process function -> recording sink", tree(rp.rec2), s.projection(rp.target, false), rp.target)
 		},
 		func() bool {
-			return cmp("subscription(backup) -> process function -> local sink", localFiles(rp.loc2Dir), s.projection(rp.loc2Dir, true), rp.loc2Dir)
+			return cmp("subscription(backup) -> process function -> local sink", localFiles(rp.loc2Dir), s.projection(rp.loc2Dir, true), rp.loc2Dir) &&
+				s.checkSinkContent("subscription(backup) -> process function -> local sink", rp.loc2Dir)
 		},
 	}
 	// only the first violation of a run is reported: which path is looked at first rotates with the plan
